@@ -1,9 +1,10 @@
 """C14: no datagram exceeds the configured MTU; no payload exceeds its length field (DESIGN.md 7/C14)."""
 from vlib import run_pair
-from xl import xl_pair, xl_search
+from xl import xl_pair, xl_search, XL_TRUSTED
 
 PID = "C14"
 MODEL_VOS = ["model/Sizes.vo"]
+TRUSTED_EXTRA = [XL_TRUSTED]
 USES_TRANSLATED = True     # props/C14.v has theorems over gen/Translated.v: a translator failure is a problem of this check
 ASSUMPTIONS = [
     "whole-session traffic: driver e2e (-prop C14) runs real client and server Muxes over simnet UDP/TCP under virtual time for MTU x padding x low-entropy mode x write sizes and measures every emitted datagram against the sender's MTU and every decoded length field against its limit (oracle only; decoded by the independent refcodec)",
